@@ -25,6 +25,8 @@ pub fn bytes_step(d: &mut Driver, ch: &mut dyn Chooser, i: usize, full: bool) {
     if full && !ch.exhaustive() && matches!(op, 0..=5 | 9) {
         op = 12 + ch.choose(5); // consuming ops when the pool is full
     }
+    // the harness's own answer to "is this handle the only one on its storage" (three-valued)
+    let must_unique = d.unique_expect(i) == Some(true);
     let mut s = d.pool.swap_remove(i);
     let rname = s.rname();
     let sid = s.id;
@@ -235,14 +237,18 @@ pub fn bytes_step(d: &mut Driver, ch: &mut dyn Chooser, i: usize, full: bool) {
                 _ => unreachable!(),
             };
             let uniq = b.is_unique();
-            let _ = origin;
+            let owner_backed = matches!(origin, Origin::Owner(_));
             if let Some((m, ev)) = run(d, "Into<BytesMut>", move || BytesMut::from(b)) {
-                if uniq {
-                    // conversion of a uniquely held buffer is zero-copy
+                // conversion of a uniquely held buffer is zero-copy; "uniquely held" is decided by the
+                // harness (pool + ledger), not by the crate's own is_unique()
+                if must_unique || uniq {
                     if len > 0 {
                         expect_ptr(d, "into_mut_unique", "result", m.as_ptr() as usize, p0, &rname);
                     }
                     expect_no_byte_alloc(d, "into_mut_unique", &ev, &rname);
+                }
+                if owner_backed && m[..] != model[..] {
+                    d.viol("C03", "owner-released-before-copy", &format!("BytesMut::from(owner-backed Bytes) returned bytes that differ from the view ({rname}): the owner's memory was released before it was copied"));
                 }
                 d.cell(format!("B|{rname}|into_mut|-|{}", if uniq { "unique" } else { "copy" }));
                 d.add(Val::M(m), model, Origin::Heap);
@@ -251,12 +257,17 @@ pub fn bytes_step(d: &mut Driver, ch: &mut dyn Chooser, i: usize, full: bool) {
         }
         13 => {
             d.log(format!("into Vec B{sid}"));
+            let s_origin = s.origin;
             let Slot { val, model, .. } = s;
             let b = match val {
                 Val::B(b) => b,
                 _ => unreachable!(),
             };
+            let owner_backed = matches!(s_origin, Origin::Owner(_));
             if let Some((v, _)) = run(d, "Into<Vec>", move || Vec::<u8>::from(b)) {
+                if owner_backed && v != model {
+                    d.viol("C03", "owner-released-before-copy", &format!("Vec::from(owner-backed Bytes) returned bytes that differ from the view ({rname}): the owner's memory was released before it was copied"));
+                }
                 d.cell(format!("B|{rname}|into_vec|-|ok"));
                 d.add(Val::V(v), model, Origin::Heap);
             }
